@@ -107,6 +107,73 @@ impl Exec {
         self.in_poll = false;
     }
 
+    /// Explores the interleavings of the concurrent section: DFS over schedules with a bound on preemptions, then random
+    /// schedules. Every schedule starts from the same checkpoint (database file + node state), restarted like after a crash.
+    fn explore(&mut self, conc: &Value, wd: &std::path::Path, idx: usize) -> usize {
+        let threads: Vec<Value> = conc["threads"].as_array().unwrap().clone();
+        let bound = conc["preemptions"].as_u64().unwrap_or(2) as usize;
+        let max = conc["max"].as_u64().unwrap_or(200) as usize;
+        let nrandom = conc["random"].as_u64().unwrap_or(0) as usize;
+        let seed = conc["seed"].as_u64().unwrap_or(1);
+        // checkpoint
+        self.rig.tower = None;
+        self.rig.rec.lock().unwrap().comps = None;
+        self.rig.rec.lock().unwrap().rdb = None;
+        let ckpt = wd.join(format!("ckpt_{idx}.sql3"));
+        std::fs::copy(&self.rig.db_path, &ckpt).unwrap();
+        let node_ckpt = self.rig.node.lock().unwrap().clone();
+        let mut stack: Vec<Vec<usize>> = vec![vec![]];
+        let mut runs = 0usize;
+        let mut randoms = 0usize;
+        loop {
+            let (prefix, random) = if let Some(p) = stack.pop() {
+                if runs >= max {
+                    stack.clear();
+                    continue;
+                }
+                (p, None)
+            } else if randoms < nrandom {
+                randoms += 1;
+                (vec![], Some(seed * 1000 + randoms as u64))
+            } else {
+                break;
+            };
+            self.rig.restore(&ckpt, node_ckpt.clone());
+            // restart from the checkpoint WITHOUT the catch-up poll: blocks mined and not yet polled belong to the concurrent section
+            if !self.rig.boot() {
+                break;
+            }
+            let plen = prefix.len();
+            let out = self.rig.run_conc(&threads, prefix, random);
+            runs += 1;
+            if random.is_none() {
+                // expand: alternatives at every decision after the prefix, within the preemption bound
+                let d = &out.decisions;
+                let mut preempt = 0usize;
+                for k in 0..d.len() {
+                    let is_preempt = |choice: usize| d[k].running.map(|r| d[k].runnable.contains(&r) && choice != r).unwrap_or(false);
+                    if k >= plen {
+                        for alt in d[k].runnable.iter() {
+                            if *alt != d[k].chosen {
+                                let p = preempt + if is_preempt(*alt) { 1 } else { 0 };
+                                if p <= bound {
+                                    let mut np: Vec<usize> = d[..k].iter().map(|x| x.chosen).collect();
+                                    np.push(*alt);
+                                    stack.push(np);
+                                }
+                            }
+                        }
+                    }
+                    if is_preempt(d[k].chosen) {
+                        preempt += 1;
+                    }
+                }
+            }
+        }
+        let _ = std::fs::remove_file(&ckpt);
+        runs
+    }
+
     fn op(&mut self, op: &Value) {
         if self.dead {
             return;
@@ -366,6 +433,7 @@ fn main() {
     let (cfg0, h00) = cfg_of(&script["cfg"]);
     let mut exec: Option<Exec> = None;
     let mut n_ops = 0usize;
+    let mut conc_runs = 0usize;
     let mut finals: std::collections::HashMap<usize, Value> = std::collections::HashMap::new();
     let mut per_scenario: Vec<Value> = Vec::new();
     for (i, sc) in scenarios.iter().enumerate() {
@@ -392,6 +460,9 @@ fn main() {
         for op in sc["ops"].as_array().unwrap() {
             e.op(op);
             n_ops += 1;
+        }
+        if sc.get("conc").is_some() && !e.dead {
+            conc_runs += e.explore(&sc["conc"], &wd, i);
         }
         let (points, labels) = teos_common::verif::passed();
         teos_common::verif::arm(None);
@@ -425,5 +496,5 @@ fn main() {
     r.emit_plain(json!({"act": "end"}));
     let n = r.tw.n;
     r.tw.flush();
-    println!("{}", json!({"scenarios": scenarios.len(), "ops": n_ops, "events": n, "aborts": aborted, "per_scenario": per_scenario}));
+    println!("{}", json!({"scenarios": scenarios.len(), "ops": n_ops, "events": n, "aborts": aborted, "per_scenario": per_scenario, "conc_runs": conc_runs}));
 }
